@@ -84,6 +84,11 @@ def r1_polarity(ctx, cb):
     for ins in cb.disc_inserts:
         kv = b.val(ins.args[1])
         ok = kv.fields() and kv.fields()[-1] == '.name'
+        if not ok:
+            # the name may have been taken out in an earlier stage of a pipeline (`.map(|(_, p)| p.name)`)
+            from taint import vals_of as _vo
+            alts_ = set(noref(x) for x in _vo(b, noref(kv)))
+            ok = bool(alts_) and all(x.fields()[-1:] == ('.name',) for x in alts_)
         ctx.check(bool(ok), rule, 'key-is-property-name@%s' % role_of_insert(cb, ins), b,
                   good='discovery key is the property name', bad='%s: discovery key %r is not property.name'
                                                               % (cb.strat, kv), span=ins.span)
@@ -117,7 +122,7 @@ def r2_all_properties(ctx, cb):
         heads = [h for h in cb.prop_next if b.dominates(h.bb, c.bb)]
         head = max(heads, key=lambda h: len([1 for x in heads if b.dominates(x.bb, h.bb)])) if heads else None
         ok = kv.fields() and kv.fields()[-1] == '.name' and head is not None and kv.key == head.bb
-        if not ok and kv.fields() and kv.fields()[-1] == '.name':
+        if not ok:
             # the property may arrive through a join (an expanded `filter_map`) or be looked up by bit index in the
             # terminal loop (`properties.get(i)`): its own name all the same
             from taint import vals_of
